@@ -1,21 +1,30 @@
 #!/bin/bash
 # Run the registered checks against every seeded change, in an isolated copy of the repository.
+# For each change: first the check of the property it was written against; when that misses, every other check
+# until one raises an alarm (a change usually breaks several properties).
 # usage (from a snapshot):  vp run --with-repo -- tools/seed_matrix.sh [ids...]
-# or locally:               VP_RUN_REPO=/path/to/scratch/clone tools/seed_matrix.sh C04
 set -u
 cd "$(dirname "$0")/.."
 REPO_COPY="${VP_RUN_REPO:?need a scratch repository copy}"
 export VERIF_REPO="$REPO_COPY"
 OUT="${MATRIX_OUT:-/tmp/seed_matrix.$$.txt}"
 ./check --setup >/dev/null 2>&1
+ALL="C01 C02 C03 C04 C05 C06 C07 C08 C09 C10 C11 C12 C13 C14 C15 C16 C17 C18"
 IDS="${*:-$(ls seeded)}"
 for id in $IDS; do
   for p in seeded/$id/patch*.diff; do
     [ -f "$p" ] || continue
     if ! git -C "$REPO_COPY" apply "$PWD/$p" 2>/dev/null; then echo "$id $(basename $p) DOES-NOT-APPLY" | tee -a "$OUT"; continue; fi
     RES=$(./check $id --tier quick 2>/dev/null | grep -E "^VIOLATION" | head -1)
+    if [ -z "$RES" ]; then
+      for other in $ALL; do
+        [ "$other" = "$id" ] && continue
+        R2=$(./check $other --tier quick 2>/dev/null | grep -E "^VIOLATION" | head -1)
+        if [ -n "$R2" ]; then RES="MISSED-BY-OWN-CHECK caught-by=$other $R2"; break; fi
+      done
+    fi
     git -C "$REPO_COPY" checkout -- . ; git -C "$REPO_COPY" clean -fdq
-    echo "$id $(basename $p) ${RES:-MISSED}" | tee -a "$OUT"
+    echo "$id $(basename $p) ${RES:-MISSED-BY-ALL}" | tee -a "$OUT"
   done
 done
 echo "MATRIX-DONE $OUT"
